@@ -236,11 +236,11 @@ class HKY(SymmetricSubstitutionModel):
         ).reshape(branch_lengths.shape + (4, 4))
 
     def q(self) -> torch.Tensor:
-        if len(self.frequencies.shape) == 1:
-            pi = self.frequencies.expand(self.kappa.shape[:-1] + (4,)).unsqueeze(-2)
-        else:
-            pi = self.frequencies.unsqueeze(-2)
-        kappa = self.kappa
+        batch_shape = torch.broadcast_shapes(
+            self.kappa.shape[:-1], self.frequencies.shape[:-1]
+        )
+        pi = self.frequencies.expand(batch_shape + (4,)).unsqueeze(-2)
+        kappa = self.kappa.expand(batch_shape + (1,))
         return torch.cat(
             (
                 -(pi[..., 1] + kappa * pi[..., 2] + pi[..., 3]),
@@ -261,7 +261,7 @@ class HKY(SymmetricSubstitutionModel):
                 -(pi[..., 0] + kappa * pi[..., 1] + pi[..., 2]),
             ),
             -1,
-        ).reshape(kappa.shape[:-1] + (4, 4))
+        ).reshape(batch_shape + (4, 4))
 
     @classmethod
     def from_json(cls, data, dic):
